@@ -35,7 +35,7 @@ HasU(k) == "u" \in DOMAIN Trace[k]
 TraceFrags == {Trace[k].u : k \in {j \in 1..N : HasU(j)}}
 FieldOf == [f \in TraceFrags |-> Trace[CHOOSE k \in 1..N : HasU(k) /\ Trace[k].u = f].fld]
 
-VARIABLES mem, snap, log, torn, tmp, tmpc, opn, sq, kdisk, ktorn, kpart, mtmp,
+VARIABLES mem, snap, log, torn, tmp, tmpc, opn, sq, kdisk, ktorn, kpart, kcut, mtmp,
           infl, done, hdr, rowed, acked, goal, akeys, gkeys, nw, pc, rec, reck,
           i,         \* events consumed
           made       \* fragment files created and not yet initialised
@@ -43,10 +43,10 @@ VARIABLES mem, snap, log, torn, tmp, tmpc, opn, sq, kdisk, ktorn, kpart, mtmp,
 D == INSTANCE Durability WITH
         Frags <- TraceFrags, Bits <- {}, MaxWrites <- N + 1, MaxOpN <- 1,
         Kinds <- {"bit", "multi", "batch2", "roaring", "rowop", "large"},
-        KeyChunks <- 1, TornTailFails <- FALSE, RoaringTwoWrites <- TwoWrites,
+        KeyChunks <- 1, CutClasses <- {"any"}, UnrecognisedCuts <- {}, TornTailFails <- FALSE, RoaringTwoWrites <- TwoWrites,
         RowOpAsync <- AsyncRow, MultiSeparateWrites <- FALSE, SnapTmpTruncated <- TRUE, Contentless <- TRUE, NoOpnSnapshot <- NoOpnSnap
 
-dvars == <<mem, snap, log, torn, tmp, tmpc, opn, sq, kdisk, ktorn, kpart, mtmp,
+dvars == <<mem, snap, log, torn, tmp, tmpc, opn, sq, kdisk, ktorn, kpart, kcut, mtmp,
            infl, done, hdr, rowed, acked, goal, akeys, gkeys, nw, pc, rec, reck>>
 vars == <<dvars, i, made>>
 
@@ -59,7 +59,7 @@ Reset ==
     /\ mem' = Empty /\ snap' = Empty /\ log' = [f \in TraceFrags |-> << >>]
     /\ torn' = [f \in TraceFrags |-> FALSE] /\ tmp' = [f \in TraceFrags |-> "none"] /\ tmpc' = Empty
     /\ opn' = [f \in TraceFrags |-> 0] /\ sq' = [f \in TraceFrags |-> "idle"]
-    /\ kdisk' = 0 /\ ktorn' = FALSE /\ kpart' = 0 /\ mtmp' = "none"
+    /\ kdisk' = 0 /\ ktorn' = FALSE /\ kpart' = 0 /\ kcut' = "none" /\ mtmp' = "none"
     /\ infl' = D!NoWrite /\ done' = [f \in TraceFrags |-> 0] /\ hdr' = [f \in TraceFrags |-> FALSE]
     /\ rowed' = {} /\ acked' = Empty /\ goal' = Empty /\ akeys' = 0 /\ gkeys' = 0
     /\ nw' = 0 /\ pc' = "run" /\ rec' = Empty /\ reck' = 0
